@@ -237,6 +237,6 @@ def check_faults(case, rec):
             rec.fail(site, f"unexpected result key {extra[0]}", got=[list(k) for k in extra], **info)
 
 
-SUBS = [Sub("faults", fault_case, check_faults, quick=1200, thorough=16000)]
+SUBS = [Sub("faults", fault_case, check_faults, quick=2000, thorough=16000)]
 REQUIRED_CLASSES = ["faults:runtime_fault_before_healthy"] + [f"faults:kind={k}" for k in
                     ("unknown_module", "unknown_test", "bad_params", "absent_stream", "raises", "missing_input")]
